@@ -12,6 +12,9 @@ CLAIMED = {
  "C02": ("reference-model monitor over hooked coin-tree snapshots before/after every batch of generated histories",
          "Every batch of thousands of generated histories (all transaction kinds, dependent members in every order, one hostile mutation) is checked against a map-based UTXO model: accepted => necessary validity conditions held and coin set = prior - inputs + outputs exactly; rejected => every observable component unchanged.",
          "Covers generated batches only; validity model checks necessary conditions (sufficiency is observed, not claimed); covenants outside the reference interpreter's domain give no claim.", "6/C02"),
+ "C03": ("equality-across-executions monitor: one set of transactions under all/random permutations x rayon pools of 1/2/4/16 threads x repeated HashSet iteration orders x fresh processes, plus ThreadSanitizer in the thorough tier",
+         "Sets of 1-5 members under all permutations (up to 4: on every pool size), larger sets under random permutations; members independent, chained, DAG-shaped, with an invalid member or a duplicate; all outcomes (accepted?, sealed header) equal, equal to one-at-a-time application in dependency order; the resulting block applied 6 times with rebuilt HashSets; a seeded scenario re-run in 2 fresh processes. The thorough tier re-runs the workload in a ThreadSanitizer build and counts race reports.",
+         "Schedules are varied by pool size, permutation, HashSet seed and process, not enumerated; a TSan build failure is reported as 'sanitizer unavailable', never as a violation.", "6/C03"),
  "C04": ("differential monitor of apply_tx acceptance against the reference interpreter evaluated per input on the reference environment heap",
          "Tens of thousands of (fabricated state, transaction) cases in which only authorisation is in question: 1-8 inputs from 13 covenant families (standard signatures with wrong key/slot/message/truncation/tampering, hash-, time-, index-, value-, data-, height-, parent-index-, output-count-bound, self-hash, random programs), inputs sharing a covenant hash with different environments, missing and corrupted covenants; accepted => every input authorised; for standard signature covenants all authorised => accepted.",
          "Sufficiency is claimed for the standard signature covenants only; covenants leaving the reference interpreter's domain give no claim.", "6/C04"),
@@ -54,6 +57,9 @@ CLAIMED = {
  "C17": ("enumerating monitor of header().fee_multiplier across seal(Some(delta)) against an exact big-integer step",
          "All 256 deltas x multipliers 0..300 and around every power of two up to 2^70, before and after TIP-901, plus long runs of extreme deltas; exact expected value, no wrap, no panic, and unchanged without an action.",
          "Multipliers beyond 2^70 are checked for totality and direction only.", "6/C17"),
+ "C18": ("differential monitor of DoscMint acceptance and header dosc_speed against a reference that calls melpow with the harness's own hash functions and exact reward arithmetic",
+         "Real proofs (legacy and TIP-910 hash, difficulty 1-10 quick / 14 thorough), coin ages 1-200, previous speeds 1-10^6, ERG at reward-1/reward/reward+1, mainnet age rule, corruptions (flipped byte, dropped node, other coin, other height, stated difficulty +-1, garbage data), several mints per block in different orders: accept iff decodes, verifies for the right puzzle, ERG <= reference reward and (mainnet) age >= 100; dosc_speed = max(previous, demonstrated) and never decreases.",
+         "melpow's verifier is trusted as a library (called from the harness under catch_unwind); difficulties are limited by what can be proven in the time budget.", "6/C18"),
  "C19": ("exactly-once monitor over faucet application histories on all nine networks with replay at every later point and after restart",
          "Faucet transactions of many shapes (0-255 outputs, all denominations, the grandfathered mainnet transaction on every network) are applied and replayed in the same batch, a later batch of the same block, 1-30 blocks later, with a different sigs field, inside other batches, and after a from_block restart on a copied store; on mainnet only the grandfathered hash may be accepted, elsewhere each hash at most once per lineage.",
          "Repeated acceptance of the grandfathered transaction on mainnet itself is outside the property's wording and is not flagged.", "6/C19"),
